@@ -37,6 +37,9 @@ def worker(job):
             if spec is None:
                 return valid
             h = hostile.realize(agent, req, spec)
+            if isinstance(h, list):
+                state["sent"] = b"".join(h[:1])
+                return h + [valid]
             state["sent"] = h
             if h is None:
                 return valid
@@ -87,12 +90,14 @@ def worker(job):
             if out[0] == "ok":
                 cls = "result"
             else:
-                c = driver.classify_exc(out[1])
+                c = driver.classify_exc(out[1], op)
                 cls = "%s:%s" % (c, out[1]["cls"])
             key = "%s|%s" % (op, cls)
             res["outcomes"][key] = res["outcomes"].get(key, 0) + 1
+            if len(res.setdefault("samples", [])) < 2 and res["cases"] % 211 == 17:
+                res["samples"].append({"cfg": cfg.key(), "op": op, "hostile": spec["label"], "datagram": state["sent"].hex()[:120], "outcome": cls})
             bad = None
-            if out[0] == "exc" and driver.classify_exc(out[1]) in ("panic", "undocumented"):
+            if out[0] == "exc" and driver.classify_exc(out[1], op) in ("panic", "undocumented"):
                 bad = "raised %s (%s): %s" % (out[1]["cls"], "/".join(out[1]["mro"][:3]), out[1]["msg"])
             elif dur > 0.4 * 3 + 2.0:
                 bad = "call took %.2fs (timeout 0.4s, 1 hostile + 1 valid datagram)" % dur
@@ -279,6 +284,8 @@ def rig_p(chk, tier, seed):
                         {"rig": "P", "variant": variant, "job": {k: v for k, v in job.items() if k != "specs"}, "progress": o["progress"]})
                 continue
             st["cases"] += res["cases"]
+            for x in res.get("samples", [])[:1]:
+                chk.sample(x, limit=10)
             for k, v in res["outcomes"].items():
                 st["outcomes"][k] = st["outcomes"].get(k, 0) + v
                 chk.distinct.add("P:%s:%s:%s" % (variant, cfgkey, k))
